@@ -46,6 +46,15 @@ package sourcebundle
 //@       && r == Join(Join(b.rootDir, b.remotePackageDirs[b.registryPackageSources[addr.pkg][version].pkg]),
 //@                    ite(Join(b.registryPackageSources[addr.pkg][version].subPath, addr.subPath) == ".", "", Join(b.registryPackageSources[addr.pkg][version].subPath, addr.subPath)))
 
+// Archiving packs the whole bundle directory, with no ignore rules applied (the builder has pruned each package with
+// that package's own rules already) and with links dereferenced.
+//@ func (*Bundle).WriteArchive -> (err)
+//@   sweep
+//@   requires pre.b: b != nil
+//@   ghost $packCalls Int = 0
+//@   at-call go-slug.Packer.Pack C09.archive.packer: a0 != nil && a0.dereference && !a0.applyTerraformIgnore && len(a0.allowSymlinkTargets) == 0 && a1 == b.rootDir
+//@   ensures C09.archive.packed-once: err == nil ==> $packCalls == 1
+
 //@ func (*Bundle).SourceForLocalPath -> (r, err)
 //@   replay bundleLookup:
 //@   opt lemmas=bundle
